@@ -115,7 +115,17 @@ func pointerRoom(c *Ctx, r *Report, rule, consequence string) {
 	var bad []string
 	allInstrs(fn, func(in ssa.Instruction) {
 		phi, ok := in.(*ssa.Phi)
-		if !ok || phi.Comment != "pointer" {
+		if !ok {
+			return
+		}
+		// the pointer target: the int variable that starts at -1 ("none")
+		startsNone := false
+		for _, e := range phi.Edges {
+			if k, isK := constIntOf(e); isK && k == -1 {
+				startsNone = true
+			}
+		}
+		if !startsNone {
 			return
 		}
 		for i, e := range phi.Edges {
@@ -392,9 +402,9 @@ func tokenGrowth(c *Ctx, r *Report, rule string) {
 		if !ok || bin.Op != token.GEQ {
 			continue
 		}
-		phi, isPhi := bin.X.(*ssa.Phi)
+		_, isPhi := bin.X.(*ssa.Phi)
 		lc, isLen := bin.Y.(*ssa.Call)
-		if !isPhi || !isLen || calleeNameSSA(&lc.Call) != "builtin.len" || phi.Comment != "stri" {
+		if !isPhi || !isLen || calleeNameSSA(&lc.Call) != "builtin.len" {
 			continue
 		}
 		n++
